@@ -51,6 +51,9 @@ def run_impl(case):
     S = np.array(case['S'], dtype=np.float64)
     S0 = S.copy()
     opts = dict(case['opts'])
+    if case.get('as_config'):
+        from tenpy.tools.params import asConfig
+        opts = asConfig(opts, 'truncation')
     out = {}
     with warnings.catch_warnings(record=True) as w:
         warnings.simplefilter('always')
@@ -493,6 +496,8 @@ def gen_case(rng):
         for k in rng.choice([['svd_min'], ['trunc_cut'], ['svd_min', 'trunc_cut']]):
             opts.pop(k, None)
     case = {'part': 'truncate', 'S': S, 'opts': opts}
+    if rng.random() < 0.05:
+        case['as_config'] = True  # a tenpy Config instead of a dict
     case.update(extra)
     return case
 
